@@ -27,6 +27,7 @@ import . "github.com/pbenner/autodiff/logarithmetic"
 
 import . "github.com/pbenner/autodiff"
 import . "github.com/pbenner/threadpool"
+import   "github.com/pbenner/autodiff/verifhook"
 
 /* -------------------------------------------------------------------------- */
 
@@ -113,6 +114,8 @@ func (obj *ShapeHmmDataSet) EvaluateLogPdf(edist []MatrixPdf, pool ThreadPool) e
       return fmt.Errorf("data has invalid dimension")
     }
     pool.AddRangeJob(0, n-r, g, func(i int, pool ThreadPool, erf func() error) error {
+      verifhook.Yield("matrixEstimator.shapeHmm_data.job")
+      verifhook.Event("matrixEstimator.shapeHmm_data", i, pool.GetThreadId())
       if erf() != nil {
         return nil
       }
@@ -134,6 +137,7 @@ func (obj *ShapeHmmDataSet) EvaluateLogPdf(edist []MatrixPdf, pool ThreadPool) e
       return nil
     })
   }
+  verifhook.Yield("matrixEstimator.shapeHmm_data.queued")
   if err := pool.Wait(g); err != nil {
     return fmt.Errorf("evaluating emission probabilities failed: %v", err)
   }
